@@ -155,6 +155,23 @@ CLAIMED.update({
              "harness (its 'none' cases must decode to the intended route, which the table requires)."),
 })
 
+CLAIMED.update({
+    "C16": dict(
+        category="exploration", design_ref="DESIGN.md 5 (C16)",
+        technique="TLA+ Admission.tla (state machine: connect / API calls / remote close / session tail as separate actions, "
+                  "invariants OnePerDirection, SlotHeld, LiveIsAdmitted, DynamicHasConnection checked exhaustively by TLC) with "
+                  "random behaviours replayed on the real Global + accept_connection + PeerSession::run + gRPC handlers over "
+                  "loopback sockets; function-style tables Negotiate.tla / Params.tla / Contains.tla enumerated by TLC and compared "
+                  "case by case with the real PeerFsm, negotiate_gr/llgr, accept_connection and IpNet::contains",
+        text="Admission: the model is checked exhaustively (16k states quick, 15M thorough) and 250 (2500) random behaviours of up "
+             "to 25 (30) steps are replayed on the real code with the result of every call and the neighbour table compared. "
+             "Negotiation: all 26,005 capability-list pairs of the table from both ends. Session parameters: 120 configurations. "
+             "Prefix containment: 1,280 cases x 8 embeddings.",
+        note="Trusted: the transcription of the statement into the tables; the single-threaded test runtime realises the model's "
+             "interleavings (the harness does not yield between a close signal and the model's `end` step). IPv6 sessions are not "
+             "opened (only ::1 exists in the sandbox); IPv6 is covered by the containment table."),
+})
+
 NOT_YET = {}
 
 HOOK_COMMITS = []
